@@ -433,7 +433,14 @@ const PS_VARIANTS: &[&str] = &["ShareRequest", "SharePeers", "Done"];
 fn ipv6(s: &mut Src) -> Ipv6Addr {
     let hi = s.u64();
     let lo = s.u64();
-    Ipv6Addr::from(((hi as u128) << 64) | lo as u128)
+    // a third of the addresses come from the special ranges of the address space (a uniform 128-bit value never does)
+    match s.pick(12) {
+        0 => Ipv6Addr::from((0xffffu128 << 32) | (lo as u32) as u128), // IPv4-mapped ::ffff:a.b.c.d
+        1 => Ipv6Addr::from((lo as u32) as u128),                      // IPv4-compatible ::a.b.c.d
+        2 => Ipv6Addr::from((0x0064_ff9bu128 << 96) | (lo as u32) as u128), // NAT64 64:ff9b::/96
+        3 => [Ipv6Addr::UNSPECIFIED, Ipv6Addr::LOCALHOST, Ipv6Addr::from(u128::MAX), Ipv6Addr::from(0xffffu128 << 32)][(lo % 4) as usize],
+        _ => Ipv6Addr::from(((hi as u128) << 64) | lo as u128),
+    }
 }
 
 impl Wire for n1::peersharing::Message {
